@@ -66,8 +66,22 @@ pub fn gen_redex(r: &mut Rng) -> (String, &'static str) {
             let v = ["X", "X$i", "Z", "X Y"][r.upto(4)];
             let loc: &[(&str, &str)] = &[("X", ""), ("X", "$i"), ("Z", ""), ("Y", "")];
             let f = filler(r, loc, 1);
-            let g = filler(r, loc, 1);
+            let mut g = filler(r, loc, 1);
+            if r.chance(1, 3) {
+                // the other operand mentions the variable free, but only below a binder of the
+                // same name and another sort (which does not bind it)
+                let both: &[(&str, &str)] = &[("X", ""), ("X", "$i")];
+                let inner = filler(r, both, 1);
+                let other = if v == "X$i" { "X" } else { "X$i" };
+                let link = if r.chance(1, 2) { format!("X = X$i and ({inner})") } else { inner };
+                g = match r.below(3) {
+                    0 => format!("{} {other} ({link})", ["exists", "forall"][r.upto(2)]),
+                    1 => format!("not exists {other} ({link})"),
+                    _ => format!("p(1) or forall {other} ({link})"),
+                };
+            }
             let s = if r.chance(1, 2) { format!("({q} {v} ({f})) {c} ({g})") } else { format!("({g}) {c} ({q} {v} ({f}))") };
+            let s = if r.chance(1, 4) { format!("forall X X$i ({s})") } else { s };
             (s, "extend-scope")
         }
         3 => {
